@@ -74,8 +74,7 @@ def want_extract(e, sanitize=True):
 def check(ctx: Ctx) -> None:
     model = ctx.model
     fn = model.func(CND)
-    consts = sorted({n.value for n in ast.walk(fn.node) if isinstance(n, ast.Constant) and isinstance(n.value, int) and not isinstance(n.value, bool)})
-    ctx.require(len(consts) >= 4, f"derive_condition_node_type compares with only {len(consts)} integer constants")
+    consts = sorted({n.value for n in ast.walk(fn.module.tree) if isinstance(n, ast.Constant) and isinstance(n.value, int) and not isinstance(n.value, bool) and abs(n.value) < 10 ** 7})
     reps = sorted({c + d for c in [*consts, 1, 499, 500, 900, 901, 999, 1000, 1999, 2000, 2499, 2500] for d in (-1, 0, 1)} | {0, 250, 700, 950, 1500, 2250, 99999})
     reps = [r for r in reps if r >= 0]
     table = {}
